@@ -36,6 +36,22 @@ func newSet(members []string) *Entry {
 // algebra computes op over the operand keys. wrongType reports whether some operand holds another type
 // (the statement says the command fails; the SDIFF description says such keys are skipped: both
 // outcomes are accepted, the result below treats them as empty).
+// interMustFail: for the intersection commands the operands are examined in the order given; an operand of the
+// wrong type that comes before the first missing operand makes the command fail (after a missing operand the
+// result is known to be empty, and whether later operands are still type-checked is not asserted).
+func (m *Model) interMustFail(keys []string) bool {
+	for _, k := range keys {
+		e, wrong := m.setAt(k)
+		if wrong {
+			return true
+		}
+		if e == nil {
+			return false
+		}
+	}
+	return false
+}
+
 func (m *Model) setAlgebra(op string, keys []string) (res []string, wrongType bool) {
 	sets := make([]map[string]struct{}, len(keys))
 	for i, k := range keys {
@@ -197,6 +213,9 @@ func (m *Model) stepSet(c chk, name string, a []string) (error, bool) {
 			return c.err(), true
 		}
 		res, wrongType := m.setAlgebra(name[1:], a)
+		if name == "SINTER" && m.interMustFail(a) {
+			return c.err(), true
+		}
 		if wrongType && c.rep.IsErr() {
 			return nil, true
 		}
@@ -230,6 +249,9 @@ func (m *Model) stepSet(c chk, name string, a []string) (error, bool) {
 			}
 		}
 		res, wrongType := m.setAlgebra("INTER", keys)
+		if m.interMustFail(keys) {
+			return c.err(), true
+		}
 		if wrongType && c.rep.IsErr() {
 			return nil, true
 		}
@@ -243,6 +265,9 @@ func (m *Model) stepSet(c chk, name string, a []string) (error, bool) {
 			return c.err(), true
 		}
 		res, wrongType := m.setAlgebra(name[1:len(name)-5], a[1:])
+		if name == "SINTERSTORE" && m.interMustFail(a[1:]) {
+			return c.err(), true
+		}
 		if wrongType && c.rep.IsErr() {
 			return nil, true
 		}
